@@ -32,13 +32,16 @@ class Stop(System):
 
 
 class BM(Model):
-    __slots__ = ['a', 'b', 'stop']
+    __slots__ = ['a', 'b', 'stop', 'timestep']        # `timestep` here is the user's own attribute (a step length)
     built = []
     bad = None
+    own_timestep = None
 
     def __init__(self, a, b, stop):
         super().__init__(logger=NULL_LOGGER)
         self.a, self.b, self.stop = a, b, stop
+        if BM.own_timestep is not None:
+            self.timestep = BM.own_timestep
         BM.built.append(self)
         if BM.bad is not None and len(BM.built) - 1 == BM.bad:
             raise Boom("run %d fails" % BM.bad)
@@ -69,7 +72,8 @@ def serial(na: int, nb: int, reps: int, mx: int, stop: int) -> bool:
     avals = list(range(na))
     if hx.P.get('repeated'):               # a grid axis may list the same value twice: still one execution per listed value
         avals = [0] * na
-    params = {"a": avals, "b": list(range(nb)), "stop": stop}
+    BM.own_timestep = 0 if hx.P.get('own_timestep') else None
+    params = {"a": (iter(list(avals)) if hx.P.get('oneshot') else avals), "b": list(range(nb)), "stop": stop}
     res = B.batch_run(BM, params, collectors=sel, processes=1, max_timesteps=mx, repetitions=reps)
     runs = [(a, b) for _ in range(reps) for a in avals for b in range(nb)]
     steps = stop if stop < mx else mx        # at timestep `stop` the stopper (priority 5) completes before collectors run
@@ -210,7 +214,8 @@ def obligations(tier):
     shapes = [(1, 1, 1), (2, 1, 1), (1, 2, 2), (2, 2, 1)] if tier == "quick" else [(1, 1, 1), (2, 1, 1), (1, 2, 2), (2, 2, 1), (2, 1, 3), (1, 1, 5)]
     return [
         X("serial", serial, parts=[{"collectors": c, "R": R, "T": T} for c in ("c", ["c", "d"], None)] +
-          [{"collectors": "c", "R": 1, "T": 2, "repeated": True}],
+          [{"collectors": "c", "R": 1, "T": 2, "repeated": True}, {"collectors": "c", "R": 2, "T": 1, "oneshot": True},
+           {"collectors": "c", "R": 1, "T": 2, "own_timestep": True}],
           labels=("three_runs", "completes_before_limit", "limit_before_completion"), timeout=1200, encoded=enc),
         X("parallel_any_order", parallel_any_order,
           parts=[{"na": a, "nb": b, "reps": r, "procs": p} for (a, b, r) in shapes for p in (2,)] + [{"na": 2, "nb": 1, "reps": 1, "procs": 16}],
